@@ -15,6 +15,7 @@ import (
 	"os"
 	"os/exec"
 	"regexp"
+	"runtime"
 	"runtime/debug"
 	"strings"
 	"sync"
@@ -444,6 +445,9 @@ func RecvWorkerMain() {
 		out.Write(b)
 		out.WriteByte('\n')
 		out.Flush()
+		if strings.HasPrefix(res.Outcome, "blocked") || res.Outcome == "timeout" {
+			os.Exit(0) // a stuck goroutine is left behind: the parent starts a fresh worker
+		}
 	}
 }
 
@@ -483,7 +487,7 @@ func recvDoJob(job *RecvJob) (res RecvJobResult) {
 	case "", "open":
 		rc, err = OpenRecvChannel(cfg, ack, job.Server, job.ChannelID, job.TokenID, 1, job.LocalNonce, job.RemoteNonce)
 	case "open-server": // a server channel as it is after a completed OpenSecureChannel: the opening instance stays
-		rc, err = recvOpenServerChannel(cfg, ack, job.ChannelID, job.TokenID, job.LocalNonce, job.RemoteNonce)
+		rc, err = RecvOpenServerChannel(cfg, ack, job.ChannelID, job.TokenID, job.LocalNonce, job.RemoteNonce)
 	case "handshake-client":
 		rc, err = recvHandshakeClient(cfg, ack, job.AckReply)
 	default:
@@ -503,7 +507,52 @@ func recvDoJob(job *RecvJob) (res RecvJobResult) {
 	if max == 0 {
 		max = len(job.Frames) + 2
 	}
-	ok := RecvDrainInto(rc, max, dl, &results)
+	// the receiver runs in its own goroutine: if it has not finished some time after
+	// the I/O deadline it is not waiting for bytes — the stacks tell where it is stuck
+	done := make(chan bool, 1)
+	var pmsg interface{}
+	go func() {
+		defer func() {
+			if e := recover(); e != nil {
+				pmsg = e
+				done <- false
+			}
+		}()
+		done <- RecvDrainInto(rc, max, dl, &results)
+	}()
+	var ok bool
+	select {
+	case ok = <-done:
+		if pmsg != nil {
+			panic(pmsg) // reported by the deferred handler above
+		}
+	case <-time.After(dl + 10*time.Second):
+		buf := make([]byte, 1<<20)
+		buf = buf[:runtime.Stack(buf, true)]
+		state, frames := "unknown", ""
+		for _, g := range strings.Split(string(buf), "\n\n") {
+			if strings.Contains(g, "RecvDrainInto") {
+				lines := strings.Split(g, "\n")
+				if i := strings.Index(lines[0], "["); i >= 0 {
+					state = strings.TrimSuffix(strings.TrimSpace(lines[0][i:]), ":")
+				}
+				for _, l := range lines[1:] {
+					if !strings.HasPrefix(l, "\t") && len(frames) < 300 {
+						frames += strings.SplitN(l, "(", 2)[0] + " < "
+					}
+				}
+				break
+			}
+		}
+		res.Results = results
+		if strings.Contains(state, "IO wait") || strings.Contains(state, "running") || strings.Contains(state, "runnable") || strings.Contains(state, "syscall") {
+			res.Outcome = "timeout"
+		} else {
+			// parked on a lock, channel or condition although every byte was delivered and the socket half-closed
+			res.Outcome = "blocked: " + state + " " + frames
+		}
+		return res
+	}
 	res.Results = results
 	res.Outcome = "ok"
 	if !ok {
@@ -513,7 +562,7 @@ func recvDoJob(job *RecvJob) (res RecvJobResult) {
 	return res
 }
 
-func recvOpenServerChannel(cfg *uasc.Config, ack *uacp.Acknowledge, channelID, tokenID uint32, ln, rn []byte) (*RecvChannel, error) {
+func RecvOpenServerChannel(cfg *uasc.Config, ack *uacp.Acknowledge, channelID, tokenID uint32, ln, rn []byte) (*RecvChannel, error) {
 	a, b, err := RecvTCPPair()
 	if err != nil {
 		return nil, err
@@ -711,6 +760,10 @@ func (w *RecvWorker) Do(job *RecvJob) RecvJobResult {
 	if err := json.Unmarshal(r.line, &res); err != nil {
 		return RecvJobResult{Outcome: "setup: bad worker answer"}
 	}
+	if strings.HasPrefix(res.Outcome, "blocked") || res.Outcome == "timeout" {
+		w.cmd.Wait() // the worker leaves after such an answer
+		w.cmd = nil
+	}
 	return res
 }
 
@@ -728,3 +781,37 @@ func (w *RecvWorker) Close() {
 		w.kill()
 	}
 }
+
+// SealPlain builds a secured MSG chunk directly from the primitives of the
+// policy (Part 6, 6.7.2): header, token id, then `plain` — sequence header,
+// body and, under SignAndEncrypt, padding and PaddingSize byte, all chosen by
+// the caller, so hostile padding values can be produced under a valid
+// signature — signature over everything, AES-CBC over everything after the
+// security header.  Under SignAndEncrypt len(plain)+signature length must be a
+// multiple of 16.  It returns the frame and the signature length.
+func (s *RecvSealer) SealPlain(ct byte, channelID, tokenID uint32, mode ua.MessageSecurityMode, plain []byte) ([]byte, error) {
+	algo := s.inst.Algo()
+	b := make([]byte, 16, 16+len(plain)+64)
+	copy(b, "MSG")
+	b[3] = ct
+	binary.LittleEndian.PutUint32(b[8:], channelID)
+	binary.LittleEndian.PutUint32(b[12:], tokenID)
+	b = append(b, plain...)
+	binary.LittleEndian.PutUint32(b[4:], uint32(len(b)+algo.SignatureLength()))
+	sig, err := algo.Signature(b)
+	if err != nil {
+		return nil, err
+	}
+	b = append(b, sig...)
+	if mode == ua.MessageSecurityModeSignAndEncrypt {
+		enc, err := algo.Encrypt(b[16:])
+		if err != nil {
+			return nil, err
+		}
+		b = append(b[:16:16], enc...)
+	}
+	return b, nil
+}
+
+// SignatureLength of the sealer's symmetric algorithm.
+func (s *RecvSealer) SignatureLength() int { return s.inst.Algo().SignatureLength() }
